@@ -20,8 +20,9 @@ DRIVERS = ['inst_containers.cpp']
 def elem_type(f):
     """canonical element type string of the Array<T> specialisation f belongs to"""
     cls = f.get('cls', '')
-    if cls.startswith('asl::Array<') and cls.endswith('>'):
-        return cls[len('asl::Array<'):-1].strip()
+    for pre in ('asl::Array<', 'asl::Stack<', 'asl::Queue<'):
+        if cls.startswith(pre) and cls.endswith('>'):
+            return cls[len(pre):-1].strip()
     return None
 
 
@@ -66,6 +67,14 @@ def run(ctx):
     ctx.info['Inv(Array)'] = sorted(ac.inv)
     unsafe, n = ac.run('R-ALIAS')
     ctx.floor('R-ALIAS members x at-risk params', n, 60)
+
+    # Stack / Queue derive from Array: their own members (push, put, pop ...) receive references that may designate elements
+    # of the stack itself (`s.push(s.top())`); same typestate analysis, with Array's invalidating members and summaries
+    for sub in ('Stack', 'Queue'):
+        if not any(f_.get('clsp') == 'asl::' + sub and f_.get('body') for f_ in prog.functions):
+            continue
+        acs = alias.AliasClass(prog, ctx, sub, 'asl::' + sub, ('_a',), (), array_risk, extra_invalidators=ac.inv)
+        acs.run('R-ALIAS', extern_summaries=unsafe)
 
     # ---------------------------------------------------------------- R-SELFARG
     n = check_selfarg(ctx, prog, ac)
